@@ -128,8 +128,13 @@ func hC19Issue() {
 	cfg := &pipeCfg{maxMsg: 4096, kind: fkUnary, clientCodec: CodecJSON, svcCodecs: []string{CodecProto}}
 	cfg.svcProtos = []Protocol{ProtocolConnect}
 	clientGet := verifChoose("clientGet", 2) == 1
+	restGet := false
 	if clientGet {
 		cfg.client = cfConnectGet
+		if verifChoose("restGet", 2) == 1 {
+			restGet = true // a REST client using the rule's GET binding (short path, empty message)
+			cfg.client = cfREST
+		}
 	} else {
 		cfg.client = []int{cfConnectUnary, cfGRPC, cfGRPCWeb}[verifChoose("client", 3)]
 	}
@@ -146,14 +151,24 @@ func hC19Issue() {
 	}
 	p.backend.script = &respScript{msgs: []wireMsg{{abstract: []byte{'r'}}}}
 	abstract := []byte("ab")[:verifChoose("len", 3)]
-	p.serve([]wireMsg{{abstract: abstract}})
+	if restGet {
+		abstract = nil
+		p.req = buildClientRequest(cfg, nil, p.body)
+		p.req.Method = "GET"
+		p.req.URL.Path = pipeRESTGetPath
+		p.req.Header.Del("Content-Type")
+		p.body.data = nil
+		p.tr.ServeHTTP(p.sink, p.req)
+	} else {
+		p.serve([]wireMsg{{abstract: abstract}})
+	}
 	rec := &p.backend.rec
 	verifObsStr("backend-method", rec.method)
 	verifObsStr("backend-query", rec.rawQuery)
 	verifObsBytes("backend-body", rec.body)
 	if rec.calls == 0 {
 		verifReach("not-dispatched") // e.g. client GET refused because the method is not side-effect-free
-		verifAssert(clientGet && lvl != 2, "C19: only a refused client GET is not dispatched here")
+		verifAssert(clientGet && !restGet && lvl != 2, "C19: only a refused Connect GET is not dispatched here")
 		return
 	}
 	nse := lvl == 2
